@@ -131,7 +131,7 @@ let build (toks : string list) : config =
         tp_ca = atom (get_s (r ^ ".cafile")) }) (modules "tls");
     cfg_files = !files;
     regex_ok = oracle "re"; template_ok = oracle "tmpl"; hostport_ok = oracle "host"; listen_ok = oracle "listen";
-    zkpath_ok = oracle "zkpath"; zkcons_ok = oracle "zkcons"; kversion_ok = oracle "kver";
+    zkpath_ok = oracle "zkpath"; zkroot_trivial = (fun a -> name_of a = "/"); zkcons_ok = oracle "zkcons"; kversion_ok = oracle "kver";
     mail_ok = (fun h p -> fact ("mail:" ^ hex_of h ^ ":" ^ sz p));
     keypair_ok = (fun c k -> fact ("pair:" ^ hex_of c ^ ":" ^ hex_of k));
     ca_pem_ok = oracle "capem";
